@@ -277,9 +277,8 @@ Fixpoint render (c : ctx) (p : pz) (t : term) {struct t} : res (str * pz) :=
       end
   | TQuery q => render_query c p q
   | TSetOp base ops obs lim off alias =>
-      let bc := ctx_of (query_cls base) in
-      let c1 := set_dialect_quote (dialect bc) (quote_char bc) c in
-      let set_ctx := set_subquery (query_wrap_setops base) c1 in
+      let c1 := match dialect c with MSSQL | ORACLE => set_groupby_alias false c | _ => c end in
+      let set_ctx := set_subquery (query_wrap_setops base && negb (dial_eqb (dialect c1) MYSQL)) c1 in
       do (sb, p1) <- render_query (if query_has_tail base then set_subquery true set_ctx else set_ctx) p base;
       do (sops_, p2) <- render_sops set_ctx (query_selects_len base) p1 ops;
       let s := sb ++ sops_ in
